@@ -73,7 +73,9 @@ def generate(ctx, escalate=False):
         proto = rng.choice(["udp", "udp", "tcp", "ws"])
         lvl = rng.choice([0, 4, 7, 7, 8])
         c = rng.random()
-        if c < 0.3:
+        if c < 0.04:
+            b = G.edge_fields(rng, proto)
+        elif c < 0.3:
             ln = rng.choice([0, 1, 2, 3, 4, 5, 6, 7, 8, 10, 12, 16, 24, 32, 64]) if rng.random() < 0.95 else rng.choice([300, 1500, 70000])
             b = G.rbytes(rng, ln)
             if proto == "udp" and b and rng.random() < 0.7:
